@@ -11,11 +11,11 @@ import (
 // entryPackages: packages whose exported functions and methods are gleece's public
 // surface (the CLI, the pipeline API used by editor integrations, the two generators).
 var entryPackages = map[string]bool{
-	"":                        true, // module root: main
-	"cmd":                     true,
-	"core/pipeline":           true,
-	"generator/routes":        true,
-	"generator/swagen":        true,
+	"":                          true, // module root: main
+	"cmd":                       true,
+	"core/pipeline":             true,
+	"generator/routes":          true,
+	"generator/swagen":          true,
 	"infrastructure/validation": true,
 }
 
